@@ -158,10 +158,16 @@ def audit(modules, theorems):
     return res
 
 
+_LEANCHECKER = {}
+
+
 def leanchecker(module):
-    with Lock("lake"):
-        r = sh(["lake", "env", "leanchecker", module], cwd=LEAN)
-    return r.returncode == 0, r.stdout[-2000:]
+    """independent re-check of the compiled module by the toolchain's leanchecker (one module per call); cached per process"""
+    if module not in _LEANCHECKER:
+        with Lock("lake"):
+            r = sh(["lake", "env", "leanchecker", module], cwd=LEAN)
+        _LEANCHECKER[module] = (r.returncode == 0, r.stdout[-2000:])
+    return _LEANCHECKER[module]
 
 
 # ------------------------------------------------------------------------------------------
@@ -441,6 +447,18 @@ def prove(rep, modules, theorems, extra_targets=()):
     rep.audit = res
     rep.forbidden = bad
     rep.cov["axioms"] = {t: res[t]["axioms"] for t in theorems}
+    if getattr(rep, "tier", "quick") == "thorough" and allok:
+        # thorough tier: the property modules are re-checked by leanchecker as well
+        lc = {}
+        for m in modules:
+            okc, outc = leanchecker(m)
+            lc[m] = "ok" if okc else "FAILED"
+            if not okc:
+                allok = False
+                for t in theorems:
+                    rep.obligations[t] = False
+                rep.build_log = "leanchecker %s failed:\n%s" % (m, outc)
+        rep.cov["leanchecker"] = lc
     if bad:
         rep.build_log = "forbidden tokens: %r" % (bad,)
     elif not allok:
